@@ -113,6 +113,8 @@ class C03(Property):
                     c['backend'] = None
                 elif m < 0.2 and c['rxn'].get('pform', 'plain') == 'plain':
                     c['ratex_value'] = kg.rand_rat(rng, num)          # Reaction.rate(..., ratex=<number>)
+                if c.get('ratex_value') is None and rng.random() < 0.3:
+                    c['keys'] = None                                  # DEFAULT substance_keys: the reaction's own species
                 if c['vars'] is not None:
                     self._maybe_drop_var(rng, c)
             elif r < 0.62:
@@ -546,7 +548,7 @@ class C03(Property):
         if c['op'] == 'history':
             a, b = io.split(' | '), mo.split(' | ')
             return len(a) == len(b) == len(c['steps']) and all(self.same(m, x, y) for m, x, y in zip(c['steps'], a, b))
-        if c['op'] == 'sys_rates' and c['keys'] is None and io[:1] == '[' and mo[:1] == '[':
+        if c['op'] in ('sys_rates', 'rxn_rate') and c['keys'] is None and io[:1] == '[' and mo[:1] == '[':
             # Reaction.keys() is a set: only the mapping is specified, not its order
             return sorted(map(tuple, json.loads(io))) == sorted(map(tuple, json.loads(mo)))
         return io == mo
@@ -751,7 +753,8 @@ class C03(Property):
             return 'Reaction.rate used no value for %s but did not fail' % missing[0]
         conc = {k: kg.to_frac(v) for k, v in (vars_ or {}).items()}
         rate = kg.rate_of(spec, conc)
-        want = {k: kg.net_of(spec, k) * rate for k in c['keys']}
+        # default substance_keys: every species of the four dictionaries, purely inactive ones included
+        want = {k: kg.net_of(spec, k) * rate for k in (c['keys'] if c['keys'] is not None else kg.spec_keys(spec))}
         gotf = {k: kg.to_frac(v) for k, v in got.items()}
         if gotf != want:
             k = next(k for k in set(want) | set(gotf) if want.get(k) != gotf.get(k))
